@@ -252,8 +252,8 @@ Definition layer_flow (k : lkind) (data : list Z) : outcome flow :=
   match k with
   | LEthernet =>                       (* ethernet.go:43-45,115-124 *)
     if (n <? 14)%nat then Err 1 else table_flow k data
-  | LFDDI =>                           (* fddi.go:31-42: no length check; data[7:13] needs cap >= 13 *)
-    if (n <? 13)%nat then Panic 10 else table_flow k data
+  | LFDDI =>                           (* fddi.go:31-46: length check (repaired: was unchecked data[7:13]) *)
+    if (n <? 13)%nat then Err 1 else table_flow k data
   | LIPv4 =>                           (* ip4.go:284-293: the layer is added even when decoding failed *)
     match ip4_decode data with
     | Ok _ => table_flow k data
@@ -274,20 +274,15 @@ Definition layer_flow (k : lkind) (data : list Z) : outcome flow :=
     let al := nthZ data 11 in
     if (Z.of_nat n - 12 <? al) then Panic 12
     else new_flow EndpointMAC (trunc16 (slice data 12 (12 + Z.to_nat al))) []
-  | LPPP =>                            (* ppp.go:39-61: unchecked indexing *)
-    let pptp := if nthZ data 0 =? 255 then
-                  (if (n <? 2)%nat then None else Some (nthZ data 1 =? 3)) else Some false in
-    match pptp with
-    | None => Panic 13
-    | Some hp =>
-      let off := if hp then 2%nat else 0%nat in
-      if (n <=? off)%nat then Panic 14
-      else if Z.even (nthZ data off) then
-        if (n <=? S off)%nat then Panic 15
-        else if Z.even (nthZ data (S off)) then Err 1
-        else empty_flow EndpointPPP
+  | LPPP =>                            (* ppp.go:39-68 (repaired: lengths checked before indexing) *)
+    let hp := (2 <=? n)%nat && (nthZ data 0 =? 255) && (nthZ data 1 =? 3) in
+    let off := if hp then 2%nat else 0%nat in
+    if (n <=? off)%nat then Err 1
+    else if Z.even (nthZ data off) then
+      if (n <=? S off)%nat then Err 1
+      else if Z.even (nthZ data (S off)) then Err 1
       else empty_flow EndpointPPP
-    end
+    else empty_flow EndpointPPP
   | LRUDP => if rudp_ok data then table_flow k data else Err 1
   | LSCTP =>                           (* sctp.go:30-39,77-89 *)
     if (n <? 12)%nat then empty_flow EndpointSCTPPort else table_flow k data
@@ -296,8 +291,8 @@ Definition layer_flow (k : lkind) (data : list Z) : outcome flow :=
     else if (n <? 20)%nat then empty_flow EndpointTCPPort else table_flow k data
   | LUDP =>                            (* udp.go:30-38,121-130 *)
     if (n <? 8)%nat then empty_flow EndpointUDPPort else table_flow k data
-  | LUDPLite =>                        (* udplite.go:28-41: no length check; data[:8] needs cap >= 8 *)
-    if (n <? 8)%nat then Panic 16 else table_flow k data
+  | LUDPLite =>                        (* udplite.go:28-46: length check (repaired: was unchecked data[:8]) *)
+    if (n <? 8)%nat then Err 1 else table_flow k data
   end.
 
 (* swap the two adjacent equal-width address fields of a header (the other direction of the
